@@ -2039,7 +2039,7 @@ func (a *Agent) handleStreamOpenAck(peerID identity.AgentID, frame *protocol.Fra
 	// Relay entries are immutable once inserted, so reading fields after the
 	// LookupDownstream RLock returns is safe even though the entry could be
 	// removed concurrently.
-	if relay := a.tcpRelay.LookupDownstream(frame.StreamID); relay != nil && peerID == relay.DownstreamPeer {
+	if relay := a.tcpRelay.LookupDownstreamFrom(frame.StreamID, peerID); relay != nil && peerID == relay.DownstreamPeer {
 		// Forward ACK to upstream with upstream stream ID
 		fwdFrame := &protocol.Frame{
 			Type:     protocol.FrameStreamOpenAck,
@@ -2102,7 +2102,7 @@ func (a *Agent) handleStreamData(peerID identity.AgentID, frame *protocol.Frame)
 	// because the per-connection stream ID space means upstream and downstream
 	// may use the same numeric ID. Relay entries are immutable once inserted,
 	// so reading entry fields after the LookupBoth RLock returns is safe.
-	upRelay, downRelay := a.tcpRelay.LookupBoth(frame.StreamID)
+	upRelay, downRelay := a.tcpRelay.LookupBoth(frame.StreamID, peerID)
 
 	// Check if data is from upstream (matches upRelay's upstream peer)
 	if upRelay != nil && peerID == upRelay.UpstreamPeer {
